@@ -116,7 +116,7 @@ def forests(n):
         if ok: out.append(pv)
     return out
 FORESTED = {"vh_attach", "vh_link_clusters", "vh_delete_gc", "vh_put_copy", "vh_temp_copy", "vh_finalise", "vh_scale", "vh_depth"}
-WINDOWED = {"vh_delete_putcopy"} | {"vh_delete_insert", "vh_next_end", "vh_delete_gc", "vh_insert", "vh_put_copy", "vh_temp_copy", "vh_next", "vh_assoc_op", "vh_attach", "vh_attr_set"}
+WINDOWED = {"vh_delete_putcopy", "vh_slot_attr"} | {"vh_delete_insert", "vh_next_end", "vh_delete_gc", "vh_insert", "vh_put_copy", "vh_temp_copy", "vh_next", "vh_assoc_op", "vh_attach", "vh_attr_set"}
 def slot_queries(pid, entries, quickmax, thoroughmax, extra=None, nmin=1, extra_unwind=None, src="slots.cpp", with_forest=False):
     qs = []
     for e in entries:
@@ -207,6 +207,8 @@ def c18():
             expose=["_ZN12_GLOBAL__N_119readFeatureSettingsEPKhPN9graphite214FeatureSettingEm"], unit_flags={"FeatureMap": ["-fno-inline"]}) for n in (1, 2, 3)]
     return fs + feat_queries() + [Q("fref_alloc_lo", "C18_features.cpp", "vh_fref_alloc", {"BITS_LO": 0, "BITS_HI": 4096}, unwind=34),
             Q("fref_alloc_hi", "C18_features.cpp", "vh_fref_alloc", {"BITS_LO": 4096, "BITS_HI": 8192}, unwind=34),
+            ] + [Q(f"fmap_laws_m{a:x}_{b:x}", "C18_features.cpp", "vh_fmap_laws", {"MAX1": f"{a}u", "MAX2": f"{b}u"}, unwind=34, unwindset={"reserve": 4, "insert": 6, "_insert_default": 6})
+                 for a, b in ((1, 1), (1, 3), (3, 1), (0xffff, 1), (0xffff, 0xffff), (0xffffffff, 1), (1, 0xffffffff), (0x7fff, 0x1ffff & 0xffff), (0xffffffff, 0xffffffff), (255, 0xffff))] + [
             Q("fmap_laws", "C18_features.cpp", "vh_fmap_laws", unwind=34, unwindset={"reserve": 4, "insert": 6, "_insert_default": 6}, tiers=("thorough",), timeout=1700)]
 
 # ------------------------------------------------------------------------------------------- C17
@@ -489,6 +491,9 @@ def c02():
              unwindset={"newSlot": b + 2, "vh_newslot_cap": b + 4, "push_back": 4, "reserve": 4, "lid:ll_calloc_split": 20, "lid:ll_malloc_split": 20, "lid:ll_realloc_split": 20, "lid:ll_memmove_sym": 20},
              cc_defs=["LL_MEM_CASES=" + ",".join(str(k) for k in sorted({0, 128 * b} | {2 * u * b for u in range(0, 5)} | {8 * c for c in (1, 2, 3, 4, 8)}))]) for b in (1, 2, 3)] + [\
            Q("runfsm_long", "fsm.cpp", "vh_runfsm_long", {"NS": 0, "LONGN": 66}, unwind=70, unwindset={"runFSM": 68, "vh_runfsm_long": 68})]
+    qs += slot_queries("C02", ["vh_slot_attr"], 2, 3, extra={"NSPARE": 2}, extra_unwind={"setJustify": 4, "getJustify": 4, "newJustify": 4, "LoadSlot": 3, "lid:ll_calloc_split": 12, "lid:ll_malloc_split": 12, "lid:ll_realloc_split": 12})
+    for x in qs:
+        if x.entry == "vh_slot_attr": x.cc_defs = ["LL_MEM_CASES=0,8,16,24,32,48,64"]
     qs += [x for x in c06() if x.name.startswith("rule_loop")]      # the MaxRuleLoop budget of Pass::runGraphite bounds the work per position (also a C06 clause)
     return qs
 
